@@ -45,7 +45,9 @@ def use_repo():
 
 # ---------------------------------------------------------------- Coq literals
 def cz(n: int) -> str:
-    return f"({n})" if n < 0 else str(n)
+    if n < 0:
+        return f"({n})" if n > -(1 << 64) else f"(-{hex(-n)})"
+    return str(n) if n < (1 << 64) else hex(n)   # Coq parses long decimal numerals slowly
 
 
 def clist(items) -> str:
